@@ -45,6 +45,9 @@ ParamLists == {NoParams} \cup {P1(a) : a \in Names}
               \cup {<<[n |-> a, d |-> b]>> : a \in Names, b \in Names}
               \cup UNION {{<<[n |-> a, d |-> ""], [n |-> b, d |-> ""]>> : b \in Names \ {a}} : a \in Names}
               \cup UNION {{<<[n |-> a, d |-> b], [n |-> b, d |-> ""]>> : b \in Names \ {a}} : a \in Names}
+              \* a default followed by a further parameter of a name used nowhere else (the harness spells a last parameter
+              \* without default as a rest parameter every third time: `function f(a=b,...r){var b}`)
+              \cup {<<[n |-> a, d |-> b], [n |-> "r", d |-> ""]>> : a \in Names, b \in Names}
 
 (* ------------------------------- structure of a program ------------------------------- *)
 \* parent[i] = index of the open item enclosing item i (0: the program)
